@@ -588,11 +588,13 @@ func (p *Parser) commodityAsWritten(tok Token) string {
 
 func (p *Parser) parseIncludeDirective(startPos Position) ast.Directive {
 	var path strings.Builder
+	pathStart := p.current.Pos
 
 	for p.current.Type != TokenNewline && p.current.Type != TokenEOF && p.current.Type != TokenComment {
 		path.WriteString(p.current.Value)
 		p.advance()
 	}
+	pathEnd := p.contentEnd
 
 	pathStr := strings.TrimSpace(path.String())
 	if pathStr == "" {
@@ -602,8 +604,9 @@ func (p *Parser) parseIncludeDirective(startPos Position) ast.Directive {
 	}
 
 	inc := ast.Include{
-		Path:  pathStr,
-		Range: ast.Range{Start: toASTPosition(startPos)},
+		Path:      pathStr,
+		Range:     ast.Range{Start: toASTPosition(startPos)},
+		PathRange: ast.Range{Start: toASTPosition(pathStart), End: toASTPosition(pathEnd)},
 	}
 	inc.Range.End = toASTPosition(p.contentEnd)
 	p.skipToNextLine()
